@@ -82,6 +82,23 @@ func runC05(c *Ctx) {
 	s.checkSkippedFindable(c, "skipped-is-findable")
 	s.checkLatchesReleased(c, "latches-released-on-terminal")
 	s.checkTriggerTable(c, "exit-on-skipped-table", "trigger-arguments")
+	// the skip trigger records exit code 1 before it starts the shutdown (the store is once-guarded: a process
+	// killed by that shutdown would otherwise record its own code first)
+	{
+		rule := c.Rule("skip-code-before-shutdown", "in the exit_on_skipped trigger the once-guarded store of the project's exit code precedes the call of the shutdown function on every path")
+		_, onSkip := s.triggerFns()
+		shut := s.shutdownFn()
+		storeSite := StoreTo("store exitCode", s.FRunnerExitCode)
+		if len(onSkip) == 0 {
+			c.Bad(rule, "trigger:none", "", "no function triggers the project shutdown on exit_on_skipped")
+		}
+		for _, t := range onSkip {
+			c.Touch(t)
+			shutCalls := DirectSites(t, CallOfFn("ShutDownProject", shut))
+			r := MustPrecede(t, s.deepWithOnce(storeSite), func(in ssa.Instruction) bool { return isOneOf(in, shutCalls) }, nil)
+			c.PathCheck(r, rule, p.FuncKey(t), FirstPos(p, t), "exit code 1 is recorded before the shutdown is started", "the skip trigger starts the shutdown before recording exit code 1: a process terminated by that shutdown (exit_on_end, main process) records its own code first and the project exits with it - possibly 0 - instead of 1")
+		}
+	}
 	s.checkExitCodeProvenance(c, "exitcode-provenance")
 	s.checkProberLifecycle(c, "prober-lifecycle")
 }
